@@ -226,6 +226,31 @@ func checkC15(p *pue, c *c15Case, r *vstat.Run) outcome {
 		}
 	}
 	if pm != "" {
+		// a panic is C06's business -- unless the entry points disagree about it: ParseFromLexer over the same tokens
+		var flPanic string
+		var flRan bool
+		_ = guard(func() {
+			syms := p.def.Symbols()
+			var elide []lexer.TokenType
+			for _, e := range p.elided {
+				if tt, ok := syms[e]; ok {
+					elide = append(elide, tt)
+				}
+			}
+			l, err := p.def.Lex(c.Filename, bytes.NewReader(in))
+			if err != nil {
+				return
+			}
+			pl, err := lexer.Upgrade(l, elide...)
+			if err != nil {
+				return
+			}
+			flRan = true
+			flPanic = guard(func() { _, _ = p.fromLexer(pl) })
+		})
+		if flRan && flPanic == "" {
+			return violationf("panic-differs", "%s: entry point %s, but ParseFromLexer over the parser's own token stream returns normally", desc, pm)
+		}
 		if r != nil {
 			r.Count("panic_left_to_C06")
 		}
